@@ -1,4 +1,4 @@
-(* C17 - executable model of RelationSchema union / lookup / removal
+(* C17 - executable model of RelationSchema union / lookup / removal / iteration (also as an open iterator)
    (orso/schema.py: RelationSchema.__iter__ 531-533, __add__ 535-562, find_column 569-588,
    all_column_names 590-602, column_names 604-607, column 609-623, pop_column 625-639;
    FlatColumn.all_names 290-295, FlatColumn.identity 144).
@@ -107,7 +107,10 @@ Inductive out :=
 | XCol (c : option P)                    (* which column object came back *)
 | XNames (l : list T)
 | XRaise                                 (* IndexError *)
-| XBad.                                  (* history refers to a schema that does not exist *)
+| XBad                                   (* history refers to a schema / iterator that does not exist *)
+| XOpened                                (* iter(schema) returned an iterator (nothing consumed yet) *)
+| XItem (n : T)                          (* next(it) returned n *)
+| XStop.                                 (* next(it) raised StopIteration *)
 
 Definition store := list schema.
 
@@ -153,6 +156,56 @@ Fixpoint run (st : store) (ops : list op) : store * list (out * list (list P)) :
               let '(st2, xs) := run st1 r in (st2, (x, tags_of st1) :: xs)
   end.
 
+(* ---- open iterators (round 2): `it = iter(schema)` is kept by the caller and advanced with
+        next(it) BETWEEN other calls, in particular between removals on the same schema.
+        __iter__ (531-533) is `iter([col.name for col in self.columns])`: a list iterator over a
+        list of names built when iter() is called, so the iterator's state is the list of names it
+        has not yielded yet and no later call on the schema can reach it.  The harness keeps the
+        iterators it opened in a Python list, in opening order. ---- *)
+Inductive hop :=
+| HOp (o : op)                           (* one of the calls above *)
+| HOpen (i : nat)                        (* iters.append(iter(store[i])) *)
+| HNext (k : nat).                       (* next(iters[k]) *)
+
+Definition iters := list (list T).       (* per open iterator: the names still to be yielded *)
+
+Fixpoint set_it (its : iters) (k : nat) (l : list T) : iters :=
+  match its, k with
+  | [], _ => []
+  | _ :: r, O => l :: r
+  | x :: r, S k' => x :: set_it r k' l
+  end.
+
+Definition hstep (sti : store * iters) (h : hop) : (store * iters) * out :=
+  let '(st, its) := sti in
+  match h with
+  | HOp o => let '(st', x) := step st o in ((st', its), x)
+  | HOpen i =>
+      match nth_error st i with
+      | Some s => ((st, its ++ [iter_names s]), XOpened)
+      | None => ((st, its), XBad)
+      end
+  | HNext k =>
+      match nth_error its k with
+      | Some (n :: r) => ((st, set_it its k r), XItem n)
+      | Some [] => ((st, its), XStop)          (* exhausted: StopIteration, now and ever after *)
+      | None => ((st, its), XBad)
+      end
+  end.
+
+(* after every call: what it returned and the column lists of ALL schemas *)
+Fixpoint hrun (sti : store * iters) (hops : list hop) : (store * iters) * list (out * list (list P)) :=
+  match hops with
+  | [] => (sti, [])
+  | h :: r => let '(sti1, x) := hstep sti h in
+              let '(sti2, xs) := hrun sti1 r in (sti2, (x, tags_of (fst sti1)) :: xs)
+  end.
+
+(* the loop `for n in schema: if pred(n): schema.pop_column(n)` as a function of the schema: the names
+   are those the iterator was opened on (see Proofs/C17_Iter.v: an open iterator yields exactly them) *)
+Definition drop_loop (pred : T -> bool) (s : schema) : schema :=
+  fold_left (fun s' n => if pred n then snd (pop_column n s') else s') (iter_names s) s.
+
 End Schema.
 
 Arguments mkcol {I T P}. Arguments ctag {I T P}. Arguments cid {I T P}. Arguments cname {I T P}.
@@ -166,6 +219,9 @@ Arguments first_named {I T P}. Arguments pop_column {I T P}.
 Arguments OAdd {T}. Arguments OFind {T}. Arguments OColAt {T}. Arguments OColName {T}.
 Arguments OPop {T}. Arguments OAllNames {T}. Arguments ONames {T}. Arguments OIter {T}.
 Arguments XNew {T P}. Arguments XCol {T P}. Arguments XNames {T P}. Arguments XRaise {T P}. Arguments XBad {T P}.
+Arguments XOpened {T P}. Arguments XItem {T P}. Arguments XStop {T P}.
+Arguments HOp {T}. Arguments HOpen {T}. Arguments HNext {T}.
+Arguments set_it {T}. Arguments hstep {I T P}. Arguments hrun {I T P}. Arguments drop_loop {I T P}.
 Arguments set_nth {I T P}. Arguments step {I T P}. Arguments run {I T P}. Arguments tags_of {I T P}.
 Arguments with_schema {I T P}.
 
@@ -218,6 +274,9 @@ Definition out_eqb (a b : cout) : bool :=
   | XCol c1, XCol c2 => opt_eqb N.eqb c1 c2
   | XNames l1, XNames l2 => list_eqb text_eqb l1 l2
   | XRaise, XRaise => true
+  | XOpened, XOpened => true
+  | XItem n1, XItem n2 => text_eqb n1 n2
+  | XStop, XStop => true
   | _, _ => false                      (* XBad never equals an observation *)
   end.
 
@@ -243,12 +302,13 @@ Definition final_eqb (st : list cschema) (fin : list (text * list text * list N)
 (* a case: (lower() table, column pool, initial schemas, history,
             per-call observations, final snapshot of every schema) *)
 Definition c17_case : Type :=
-  list (text * text) * list ccol * list (text * list text * list nat) * list (op text)
+  list (text * text) * list ccol * list (text * list text * list nat) * list (hop text)
   * list (cout * list (list N)) * list (text * list text * list N).
 
 Definition c17_run (c : c17_case) :=
   let '(tbl, pool, schemas, ops, obs, fin) := c in
-  run text_eqb text_eqb (lower_of tbl) (map (build_schema pool) schemas) ops.
+  let '(sti, xs) := hrun text_eqb text_eqb (lower_of tbl) (map (build_schema pool) schemas, []) ops in
+  (fst sti, xs).
 
 Definition c17_check (c : c17_case) : bool :=
   let '(tbl, pool, schemas, ops, obs, fin) := c in
